@@ -216,8 +216,7 @@ def column_info_from_node(root):
 
 
 def ast_parse_select_expression_to_column_infos(select_expression):
-    # The expression is parsed inside a list display, the way the main loop evaluates it: a single parenthesized tuple such as `(a1, a2)` is one output column, not two.
-    root = ast.parse('[' + select_expression + ']')
+    root = ast.parse(select_expression)
     children = list(ast.iter_child_nodes(root))
     if 'body' not in root._fields:
         raise RbqlParsingError('Unable to parse SELECT expression (error code #117)') # Should never happen
@@ -226,10 +225,11 @@ def ast_parse_select_expression_to_column_infos(select_expression):
     root = children[0]
     children = list(ast.iter_child_nodes(root))
     if len(children) != 1:
-        raise RbqlParsingError('Unable to parse SELECT expression (error code #119): "{}"'.format(select_expression)) # Should never happen
+        raise RbqlParsingError('Unable to parse SELECT expression (error code #119): "{}"'.format(select_expression)) # This can be triggered with `SELECT a = 100`
     root = children[0]
-    if isinstance(root, ast.List):
-        column_expression_trees = root.elts
+    if isinstance(root, ast.Tuple):
+        # At the top level `(a1, a2)` and `a1, a2` give the same tree. Inside a list display, the way the main loop evaluates the expression, they do not: a single parenthesized tuple is one output column.
+        column_expression_trees = ast.parse('[' + select_expression + ']').body[0].value.elts
         column_infos = [column_info_from_node(ct) for ct in column_expression_trees]
     else:
         column_infos = [column_info_from_node(root)]
